@@ -78,17 +78,26 @@ func (l leafKind) float() bool    { return l == lFloat32 || l == lFloat64 }
 func (l leafKind) number() bool   { return l.signed() || l.unsigned() || l.float() }
 
 type spec struct {
-	kind   skind
-	leaf   leafKind
-	ptr    bool // the slot holds a pointer to the type (struct fields only)
-	fields []*field
-	elem   *spec
-	n      int // array length
-	typ    reflect.Type
+	// sep (top spec only): the path separator of all reads of the case; the
+	// dotted tags of the type are written with it
+	sep string
+	// dottedNS: not part of the Go type - the namespace a dotted tag
+	// (`config:"a.b"`) reaches through, described as a struct with the one
+	// member the tag addresses
+	dottedNS bool
+	kind     skind
+	leaf     leafKind
+	ptr      bool // the slot holds a pointer to the type (struct fields only)
+	fields   []*field
+	elem     *spec
+	n        int // array length
+	typ      reflect.Type
 }
 
 type field struct {
 	key    string
+	path   []string // dotted tag: the two keys the tag text (key) is made of
+	ns     *spec    // dotted tag: the namespace in between (see spec.dottedNS)
 	inline bool
 	tag    string // validate tag
 	sp     *spec
@@ -98,6 +107,9 @@ type field struct {
 func (s *spec) shape() string {
 	if s == nil {
 		return "in-interface"
+	}
+	if s.dottedNS {
+		return "dotted-tag-namespace"
 	}
 	n := ""
 	switch s.kind {
@@ -128,7 +140,8 @@ var fieldKeys = []string{"ka", "kb", "kc", "kd", "ke", "kf", "kg", "kh", "nam", 
 var mapKeys = []string{"ma", "mb", "k1", "k2", "alfa", "beto", "m-n", "日本", "z z"}
 
 type specGen struct {
-	r *rand.Rand
+	r   *rand.Rand
+	sep string
 }
 
 var plainLeaves = []leafKind{lString, lString, lBool, lInt, lInt, lInt8, lInt16, lInt32, lInt64, lInt64, lUint, lUint8, lUint16, lUint32, lUint64, lFloat32, lFloat64, lFloat64,
@@ -267,13 +280,22 @@ func (g *specGen) addFields(s *spec, depth, nf int, used map[string]bool, mayInl
 		}
 		used[key] = true
 		fs := g.fieldSpec(depth)
-		s.fields = append(s.fields, &field{key: key, sp: fs, tag: g.tagFor(fs)})
+		f := &field{key: key, sp: fs, tag: g.tagFor(fs)}
+		if r.Intn(7) == 0 {
+			// the field is addressed by a dotted tag: it lives one namespace down
+			k2 := fieldKeys[r.Intn(len(fieldKeys))]
+			f.path = []string{key, k2}
+			f.key = key + g.sep + k2
+			f.ns = &spec{kind: kStruct, dottedNS: true, fields: []*field{{key: k2, sp: fs, tag: f.tag}}}
+		}
+		s.fields = append(s.fields, f)
 	}
 }
 
 // top draws the spec of an Unpack target: depth <= 4 below the root.
 func (g *specGen) top() *spec {
 	r := g.r
+	g.sep = []string{".", ".", "/", "::"}[r.Intn(4)]
 	depth := 1 + r.Intn(3)
 	var s *spec
 	switch x := r.Intn(20); {
@@ -287,8 +309,31 @@ func (g *specGen) top() *spec {
 	default:
 		s = &spec{kind: kSlice, elem: g.elemSpec(depth)}
 	}
+	s.sep = g.sep
 	s.build()
 	return s
+}
+
+// hasDotted: a struct of the type program addresses a field by a dotted tag
+// (reading it needs the PathSep option).
+func (s *spec) hasDotted() bool {
+	if s == nil {
+		return false
+	}
+	for _, f := range s.fields {
+		if f.path != nil || f.sp.hasDotted() {
+			return true
+		}
+	}
+	return s.elem.hasDotted()
+}
+
+// dottedKey is the key of the field as the message has to spell it.
+func (f *field) dottedKey() string {
+	if f.path != nil {
+		return strings.Join(f.path, ".")
+	}
+	return f.key
 }
 
 // build computes the Go types bottom-up.
@@ -520,6 +565,10 @@ func (g *valGen) fill(n *model.Node, s *spec) {
 			g.fill(n, f.sp)
 			continue
 		}
+		if f.path != nil {
+			n.D[f.path[0]] = model.Dict().Set(f.path[1], g.value(f.sp, f.tag != ""))
+			continue
+		}
 		n.D[f.key] = g.value(f.sp, f.tag != "")
 	}
 }
@@ -654,6 +703,13 @@ func structPositions(out *[]*position, n *model.Node, s *spec, path []seg, inlin
 			structPositions(out, n, f.sp, path, true)
 			continue
 		}
+		if f.path != nil {
+			// the namespace the dotted tag reaches through, then the field itself
+			p1 := appendSeg(path, seg{key: f.path[0]})
+			*out = append(*out, &position{path: p1, sp: f.ns, fld: &field{key: f.path[0], sp: f.ns}, parent: kStruct, inline: inline, node: n.D[f.path[0]], tagHolder: len(path)})
+			structPositions(out, n.D[f.path[0]], f.ns, p1, false)
+			continue
+		}
 		p := appendSeg(path, seg{key: f.key})
 		*out = append(*out, &position{path: p, sp: f.sp, fld: f, parent: kStruct, inline: inline, node: n.D[f.key], tag: f.tag, tagHolder: len(path)})
 		positions(out, n.D[f.key], f.sp, p, f.tag, len(path))
@@ -677,7 +733,7 @@ func (s *spec) failsOnZero() string {
 		fs := f.sp
 		if fs.ptr {
 			if hasTag(f.tag, "required") {
-				return f.key
+				return f.dottedKey()
 			}
 			continue
 		}
@@ -691,11 +747,11 @@ func (s *spec) failsOnZero() string {
 			num := fs.leaf.number()
 			if hasTag(f.tag, "required") || (hasTag(f.tag, "nonzero") && (num || fs.leaf == lString || fs.leaf == lDuration)) || (hasTag(f.tag, "min") && (num || fs.leaf == lDuration)) ||
 				fs.leaf == lPort || fs.leaf == lIdent {
-				return f.key
+				return f.dottedKey()
 			}
 		case kSlice:
 			if hasTag(f.tag, "required") {
-				return f.key
+				return f.dottedKey()
 			}
 		case kArray:
 			// an absent array is a zero array whose elements are validated too
